@@ -197,6 +197,10 @@ let split_case (line : string) : (string * string array * string) option =
   | _ -> None
 
 let () =
+  if Array.length Sys.argv > 2 && Sys.argv.(1) = "--labels" then begin
+    Ext.run_dump_labels Sys.argv.(2);
+    exit 0
+  end;
   if Array.length Sys.argv > 1 && Sys.argv.(1) = "--trace" then begin
     Ext.run_traces (List.tl (List.tl (Array.to_list Sys.argv)));
     exit 0
